@@ -492,3 +492,26 @@ Proof.
   unfold distinct_times. vm_compute.
   repeat (constructor; [cbn; intuition discriminate|]). constructor.
 Qed.
+
+(* onsets late in a recording that differ by 10 microseconds (equal as float32, distinct as exact times):
+   the theorem applies -- the out-of-order file and its reversal report the same content-labelled issues *)
+Definition t_close : list row :=
+  [plain_row (Some 5000000020%Z) 6; plain_row (Some 5000000010%Z) 5; plain_row (Some 5000000030%Z) 7].
+
+Lemma shuffle_close_onsets :
+  exists l l', w_validate (cfg0 false true true) t_close = Ok l /\
+               w_validate (cfg0 false true true) (rev t_close) = Ok l' /\
+               Permutation (idents nat 2 t_close l) (idents nat 2 (rev t_close) l').
+Proof.
+  eexists. eexists. split; [vm_compute; reflexivity|]. split; [vm_compute; reflexivity|].
+  apply (validate_shuffle_invariant nat w_err w_basic w_full w_banned w_nonempty nat w_temporal 0 [] []
+           (cfg0 false true true) t_close (rev t_close)).
+  - apply Permutation_rev.
+  - vm_compute; reflexivity.
+  - vm_compute; reflexivity.
+  - reflexivity.
+  - now left.
+  - now left.
+  - repeat constructor; discriminate.
+  - unfold distinct_times. vm_compute. repeat (constructor; [cbn; intuition discriminate|]). constructor.
+Qed.
